@@ -209,6 +209,8 @@ def y_scripts(seed, count):
                 cands += ["Resize"]
                 if rnd.random() < 0.15:
                     cands += ["SelfCopyAssign", "SelfMoveAssign"]
+                if ow and size[o] == capo[o] and size[o] > 0 and rnd.random() < 0.3:
+                    cands += ["PushBackOfFront", "PushFrontOfBack"] * 2
             if r < 0.12:
                 cands = []
                 if stt["B"] == "none":
@@ -245,7 +247,7 @@ def y_scripts(seed, count):
             elif c in ("PopBack", "PopFront"):
                 steps.append("S op=%s o=%s" % (c, o))
                 size[o] -= 1
-            elif c in ("SelfCopyAssign", "SelfMoveAssign"):
+            elif c in ("SelfCopyAssign", "SelfMoveAssign", "PushBackOfFront", "PushFrontOfBack"):
                 steps.append("S op=%s o=%s" % (c, o))
             else:
                 n2 = rnd.choice([1, 2, 3, 4, 5, 6, 8, 9, 12, 16])
